@@ -86,6 +86,7 @@ def run_case(case):
                     "double_removals": 0, "removals_while_paused": 0, "two_gate_starts": 0,
                     "inplan_install_tripped": 0}
         threads = []
+        trip_done = threading.Event()
 
         def later(delay, label, fn):
             def run():
@@ -129,8 +130,8 @@ def run_case(case):
                 counters["removals_while_suspended"] = 1
             elif shape == "trip-during":
                 RE.install_suspender(sus)
-                later(d1, "trip", lambda: sig.put(bad))
-                later(d2, "release", lambda: sig.put(good))
+                later(d1, "trip", lambda: (sig.put(bad), trip_done.set()))
+                later(d2, "release", lambda: (trip_done.wait(5), sig.put(good)))   # never before the trip (loaded machine)
                 res = h.call("RE", RE, plan(4, 0.1))
             elif shape == "removed-then-change":
                 RE.install_suspender(sus)
@@ -150,8 +151,8 @@ def run_case(case):
                     problems.append((f"second-removal-raised:{type(e).__name__}", repr(e)))
                 res = h.call("RE", RE, plan())
             elif shape == "wrapper":
-                later(d1, "trip", lambda: sig.put(bad))
-                later(d2, "release", lambda: sig.put(good))
+                later(d1, "trip", lambda: (sig.put(bad), trip_done.set()))
+                later(d2, "release", lambda: (trip_done.wait(5), sig.put(good)))   # never before the trip (loaded machine)
                 res = h.call("RE", RE, bpp.suspend_wrapper(plan(4, 0.1), [sus]))
             elif shape == "wrapper-already-tripped":
                 # the plan itself installs a suspender whose signal is already out of range: it trips on installation
